@@ -1,4 +1,5 @@
 import AmVerif.Proofs.SyncRounds
+import AmVerif.Proofs.SyncNetTie
 /-
   C20 — Two-peer sync converges and goes quiet.
   Property theorems only; helper lemmas are in `AmVerif.Proofs.Sync*`.
@@ -83,6 +84,12 @@ theorem C20_no_reset (fp : Hash → Bool) {c : Cfg} (h : Reachable fp c) :
   ⟨resetCond_false_of (fun hs hhs hv hhv x hx => (inv.a.theirHave hs hhs hv hhv x hx).1),
    resetCond_false_of (fun hs hhs hv hhv x hx => (inv.b.theirHave hs hhs hv hhv x hx).1)⟩
 
+/-- documents only grow: no step of the protocol removes a change from a change graph (the
+    first ingredient of the progress measure) -/
+theorem C20_applied_monotone (fp : Hash → Bool) {c c' : Cfg} (h : Reachable fp c) (hs : Step fp c c') :
+    (∀ x ∈ c.docA.applied, x ∈ c'.docA.applied) ∧ (∀ x ∈ c.docB.applied, x ∈ c'.docB.applied) :=
+  hs.applied_mono (Inv.of_reachable fp h)
+
 /-! ### (2) deadlock freedom: quiet implies converged — for arbitrary `fp` -/
 
 /-- In any reachable configuration with empty links in which both `generate_sync_message` return
@@ -109,6 +116,20 @@ theorem C20_quiet_after_rounds_converged (fp : Hash → Bool) {c : Cfg} (h : Rea
     (hq : Quiescent fp (rounds fp n c)) :
     Converged (rounds fp n c) ∧ ∀ k, rounds fp k (rounds fp n c) = rounds fp n c :=
   ⟨C20_quiescent_converged fp (h.rounds n) hq, fun k => rounds_quiescent k hq⟩
+
+/-! ### the theorems are about what the correspondence engine runs -/
+
+/-- The n-peer network `Net` that the `sync` engine replays against the real code, looked at
+    through any pair of distinct peers joined by a non-legacy link, takes exactly the steps of the
+    two-peer system: local edit, generate, deliver commute with the pair projection (and the
+    opposite direction is the `swap` of the pair). -/
+theorem C20_net_pair_is_two_peer_system (net : Net) (a b : Nat) (hab : a ≠ b) :
+    (∀ ch isFp, (net.edit a ch isFp).toCfg a b = (net.toCfg a b).editA ch) ∧
+    (net.legacy a b = false → (net.gen a b).1.toCfg a b = (net.toCfg a b).genA net.fp) ∧
+    (∀ m rest, net.link a b = m :: rest → (net.deliver a b).1.toCfg a b = (net.toCfg a b).recvB m rest) ∧
+    net.toCfg b a = (net.toCfg a b).swap :=
+  ⟨fun ch isFp => Net.toCfg_edit net a b hab ch isFp, Net.toCfg_gen net a b hab,
+   fun m rest hl => Net.toCfg_deliver net a b hab m rest hl, rfl⟩
 
 /-! ### non-vacuity: concrete divergent histories, with and without forced false positives -/
 
